@@ -75,9 +75,9 @@ func MakeData(class string, n int, seed int64) []byte {
 		}
 		return b
 	case "nearrandom":
-		// uniform over an alphabet of 216..240 byte values: compresses to 97-100 % of its
+		// uniform over an alphabet of 222..240 byte values: compresses to 97-100 % of its
 		// length, i.e. right at the writer's "store this chunk raw" decision
-		a := 216 + r.Intn(25)
+		a := 222 + 2*int((seed%10+10)%10) // 222..240, cycling with the seed so that neighbouring cases cover the range
 		perm := r.Perm(256)
 		b := make([]byte, n)
 		for i := range b {
